@@ -622,6 +622,7 @@ pub fn run(seed: u64, run: u64) -> Report {
         max_depth: 2,
         examples_bias: 3,
         shadow_bias: 3,
+        res_range: (1, 3),
     };
     let ast = gen::generate(&mut wl, &gcfg);
     let layout = Layout {
